@@ -54,12 +54,12 @@ type StreamOp struct {
 }
 
 type Host struct {
-	Beh     string     `json:"beh"`             // ok err wantsold toomanyfrac toomanyuniq
-	Legacy  bool       `json:"legacy"`          // wantsold/toomanyuniq as gRPC error message instead of response code
-	IDs     []ID       `json:"ids,omitempty"`   // answer of an ok replica
-	NoHint  bool       `json:"nohint"`          // answer without hints
-	FetchKO bool       `json:"fetchko"`         // the Fetch call itself fails
-	Ops     []StreamOp `json:"ops,omitempty"`   // edits of the fetch stream
+	Beh     string     `json:"beh"`           // ok err wantsold toomanyfrac toomanyuniq
+	Legacy  bool       `json:"legacy"`        // wantsold/toomanyuniq as gRPC error message instead of response code
+	IDs     []ID       `json:"ids,omitempty"` // answer of an ok replica
+	NoHint  bool       `json:"nohint"`        // answer without hints
+	FetchKO bool       `json:"fetchko"`       // the Fetch call itself fails
+	Ops     []StreamOp `json:"ops,omitempty"` // edits of the fetch stream
 }
 
 type Script struct {
@@ -246,11 +246,11 @@ type outcome struct {
 	partial bool
 	ids     []ReqID // returned IDs, Host = canonical host index
 	// fetch
-	fetched   bool
-	docs      []gotDoc
-	r         *run
-	weirdErr  string
-	unmapped  bool
+	fetched  bool
+	docs     []gotDoc
+	r        *run
+	weirdErr string
+	unmapped bool
 }
 
 type gotDoc struct {
@@ -262,11 +262,11 @@ type gotDoc struct {
 func hostName(i int) string { return fmt.Sprintf("h%02d", i) }
 
 type built struct {
-	si      *search.Ingestor
-	r       *run
-	hostOf  map[uint64]int // source -> host index
-	srcOf   map[int]uint64
-	nhosts  int
+	si     *search.Ingestor
+	r      *run
+	hostOf map[uint64]int // source -> host index
+	srcOf  map[int]uint64
+	nhosts int
 }
 
 func build(sc *Script) *built {
@@ -895,7 +895,7 @@ func main() {
 		return
 	}
 	r := rng.New(*seed)
-	nSearch, nFetch := 5000, 4000
+	nSearch, nFetch := 4000, 3000
 	if *tier == "thorough" {
 		nSearch, nFetch = 60000, 40000
 	}
